@@ -7,7 +7,6 @@ from openfisca_core.types import ParameterNodeAtInstant
 
 import ast
 import copy
-import functools
 import glob
 import importlib
 import importlib.metadata
@@ -58,6 +57,7 @@ class TaxBenefitSystem:
     def __init__(self, entities: Sequence[Entity]) -> None:
         # TODO: Currently: Don't use a weakref, because they are cleared by Paste (at least) at each call.
         self.parameters: ParameterNode | None = None
+        self._parameters_at_instant_cache = {}
         self.variables: dict[Any, Any] = {}
         self.open_api_config: dict[Any, Any] = {}
         # Tax benefit systems are mutable, so entities (which need to know about our variables) can't be shared among them
@@ -435,6 +435,7 @@ class TaxBenefitSystem:
             parameters = self.preprocess_parameters(parameters)
 
         self.parameters = parameters
+        self._parameters_at_instant_cache = {}
 
     def _get_baseline_parameters_at_instant(self, instant):
         baseline = self.baseline
@@ -442,7 +443,6 @@ class TaxBenefitSystem:
             return self.get_parameters_at_instant(instant)
         return baseline._get_baseline_parameters_at_instant(instant)
 
-    @functools.lru_cache
     def get_parameters_at_instant(
         self,
         instant: str | int | Period | Instant,
@@ -475,7 +475,13 @@ class TaxBenefitSystem:
         if self.parameters is None:
             return None
 
-        return self.parameters.get_at_instant(key)
+        parameters_at_instant = self._parameters_at_instant_cache.get(key)
+
+        if parameters_at_instant is None:
+            parameters_at_instant = self.parameters.get_at_instant(key)
+            self._parameters_at_instant_cache[key] = parameters_at_instant
+
+        return parameters_at_instant
 
     def get_package_metadata(self) -> dict[str, str]:
         """Gets metadata relative to the country package.
